@@ -2,6 +2,7 @@
   Theorems/SkipMain.lean — the simulation theorem behind C05, by induction on the client.
 -/
 import CxxModel.Theorems.Skip
+import CxxModel.Theorems.Events
 namespace Cxx
 
 /-- closes `SkipSim` goals for steps that change only fields the two runs share -/
@@ -12,11 +13,6 @@ macro "sim_shared" h:ident : tactic =>
       | exact ($h).stack
       | exact ($h).chain
       | (simpa [skipDepth] using ($h).events)))
-
-/-- does the run go on after this result (ok, or an error a `bounded` region catches)? -/
-def keepsGoing {α : Type} : Except Err α → Prop
-  | .ok _ => True
-  | .error e => catchable e = true
 
 /-- relation between the outcomes of the skipping run and of the run that skips nothing -/
 def SimOut (skip : Nat → BlockHdr → Bool) {α : Type} (o o' : World × Except Err α) : Prop :=
